@@ -254,4 +254,32 @@ if want("fcidump"):
         except Exception as exc:
             check(g, f"norb={n}", False, repr(exc))
 
+# ---------------------------------------------------------------------------------------------- extended XYZ
+if want("extxyz"):
+    g = group("extxyz", "extended XYZ: Properties=species:S:1:pos:R:3[:Z:I:1]; every sequence of 3 loads over the two layouts in one process: each file must load to what its own text says (element from Z when present, species kept as labels)")
+
+    def ext(layout, n):
+        out = [str(n)]
+        if layout == "species":
+            out.append('Properties=species:S:1:pos:R:3 title="t"')
+            out += [f"{['H', 'O', 'C'][i % 3]} {i * 1.0:.4f} {0.5 * i:.4f} {-0.25 * i:.4f}" for i in range(n)]
+        else:
+            out.append('Properties=species:S:1:pos:R:3:Z:I:1 title="t"')
+            out += [f"{['Xa', 'Xb', 'Xc'][i % 3]} {i * 1.0:.4f} {0.5 * i:.4f} {-0.25 * i:.4f} {[1, 8, 6][i % 3]}" for i in range(n)]
+        return "\n".join(out) + "\n"
+
+    for order in itertools.product(("species", "both"), repeat=3):
+        for k, layout in enumerate(order):
+            n = 1 + (k + len(order[0])) % 4
+            fn = os.path.join(tmp, "seq.xyz")
+            open(fn, "w").write(ext(layout, n))
+            try:
+                d = load_one(fn, fmt="extxyz")
+                want_sp = None if layout == "species" else [["Xa", "Xb", "Xc"][i % 3] for i in range(n)]
+                have_sp = None if "species" not in d.extra else list(d.extra["species"])
+                ok = list(d.atnums) == [[1, 8, 6][i % 3] for i in range(n)] and have_sp == want_sp and np.allclose(d.atcoords[:, 0], np.arange(n) * ANG, atol=1e-6)
+                check(g, f"loads {order}, load number {k + 1}", ok, f"atnums {list(map(int, d.atnums))} species {have_sp} expected species {want_sp}")
+            except Exception as exc:
+                check(g, f"loads {order}, load number {k + 1}", False, repr(exc))
+
 print(json.dumps({"groups": groups}))
